@@ -86,11 +86,11 @@ def elemKey (cfg : DecCfg) (S : Strconv) (name : Str) : Str :=
   let k := if cfg.lowerCase then S.lower name else name
   if cfg.snake then snakeCase k else k
 
-/-- attribute key: snake on the local name, prepend the prefix, lower the whole key -/
+/-- attribute key: snake then lower on the local name, behind the prefix as set (repaired:
+    the prefix itself is no longer lower-cased) -/
 def attrKey (cfg : DecCfg) (S : Strconv) (name : Str) : Str :=
   let l := if cfg.snake then snakeCase name else name
-  let k := cfg.attrPrefix ++ l
-  if cfg.lowerCase then S.lower k else k
+  cfg.attrPrefix ++ (if cfg.lowerCase then S.lower l else l)
 
 def isNanInfWord (S : Strconv) (s : Str) : Bool :=
   let l := S.lower s
